@@ -56,8 +56,11 @@ def run(sh):
     for i in sh.share(nrand):
         rng = random.Random(core.stable_int(sh.seed, 'C07', i))
         decimal = i % 4 == 3
+        bigint = i % 12 == 5
         ops = engine_evq.random_ops(rng, decimal=decimal, pause_centric=True,
-                                    aim_pauses=decimal or rng.random() < 0.3)
+                                    aim_pauses=decimal or bigint or rng.random() < 0.3, bigint=bigint)
+        if bigint:
+            sh.count('integer_clock_sequences')
         tie = ties.POLICIES[i % 4]     # prng, fifo, lifo, const
         one(sh, ops, tie, rng.randrange(1 << 30), False, decimal)
     # whole lines: maintenance shutdowns pause, failures cancel, restores resume the machine's events
